@@ -105,6 +105,15 @@ func (c *Conversation) startAKEFromWhitespaceTag(versions int) (toSend []message
 		return
 	}
 
+	// as for a repeated query: while our D-H Commit is unanswered the same commit is sent again
+	if c.ake != nil && c.ake.ourPublicValue != nil {
+		if _, awaiting := c.ake.state.(authStateAwaitingDHKey); awaiting {
+			ts, e := c.wrapMessageHeader(msgTypeDHCommit, c.serializeDHCommit(c.ake.ourPublicValue))
+			toSend, err = c.potentialAuthError(compactMessagesWithHeader(ts), e)
+			return
+		}
+	}
+
 	ts, e := c.sendDHCommit()
 	toSend, err = c.potentialAuthError(compactMessagesWithHeader(ts), e)
 	return
